@@ -9,6 +9,84 @@ from harness import core
 from harness.core import Outcome
 
 ID = "C03"
+LEAN_TARGETS = ["BeyondVerif.Props.C03", "BeyondVerif.Witness.C03"]
+THEOREMS = [
+    "BeyondVerif.C03.coef_table",
+    "BeyondVerif.C03.offset_defined",
+    "BeyondVerif.C03.offset_antisymm",
+    "BeyondVerif.C03.offset_compose",
+    "BeyondVerif.C03.offset_TT_TAI",
+    "BeyondVerif.C03.offset_TAI_GPS",
+    "BeyondVerif.C03.offset_TAI_UTC",
+    "BeyondVerif.C03.offset_UT1_UTC",
+    "BeyondVerif.C03.offset_TDB_TT",
+    "BeyondVerif.C03.tdb_tt_bound",
+    "BeyondVerif.C03.leap_table_facts",
+    "BeyondVerif.C03.normalise_spec",
+    "BeyondVerif.C03.toScale_mk",
+    "BeyondVerif.C03.changeScale_instant",
+    "BeyondVerif.C03.changeScale_instant_half",
+    "BeyondVerif.C03.changeScale_same_instant",
+    "BeyondVerif.C03.changeScale_roundtrip",
+    "BeyondVerif.C03.changeScale_instant_bound_partial",
+    "BeyondVerif.C03.changeScale_eq_hash",
+    "BeyondVerif.C03.eop_policy_spec",
+    "BeyondVerif.C03.eop_lookup_day",
+    "BeyondVerif.C03.add_clock",
+    "BeyondVerif.C03.add_sub",
+    "BeyondVerif.C03.add_sub_const_scales",
+    "BeyondVerif.C03.add_assoc_clock",
+    "BeyondVerif.C03.add_assoc_instant",
+    "BeyondVerif.C03.cmp_consistent",
+    "BeyondVerif.C03.label_irrelevant",
+    "BeyondVerif.C03.range_make_spec",
+    "BeyondVerif.C03.range_iter_is_progression",
+    "BeyondVerif.C03.range_len_eq_length_iter",
+    "BeyondVerif.C03.range_mem_of_iter",
+    "BeyondVerif.C03.range_contains_iff",
+    "BeyondVerif.C03W.label_day_changes_instant",
+    "BeyondVerif.C03W.noon_keeps_instant",
+]
+LEVEL_TEXT = ("Lean theorems over an exact integer model (ticks of 1e-7 s) of Date / Timescale.offset / EopDb.get / DateRange, instantiated with the scale graph "
+              "(execution order), the _scale_*_minus_* method table (AST) and the IERS tables regenerated from /repo on each run: offsets defined, antisymmetric and "
+              "composable for all 36 pairs with the exact constants (decide on coefficient vectors); the constructor and _convert_to_scale keep the instant (omega); "
+              "change_scale moves the instant by at most 1.5 us of rounding plus the disagreement of the two EOP records, and by nothing between UTC/TAI/TT/GPS; "
+              "d+t moves the clock reading by exactly t in every scale, (d+t)-d=t and associativity in TAI/TT/GPS unconditionally; comparisons/hash are functions of "
+              "the instant; DateRange iteration is the arithmetic progression of length len, all members `in` the range, for both step signs (induction); "
+              "|TDB-TT| < 1.7 ms over R for the formula translated from the AST. Exact differential correspondence of the compiled model with the real classes.")
+LEVEL_NOTE = ("Python keeps seconds of day in a double: the integer model is tied on microsecond-exact inputs by exact correspondence (1-4 us slack only where UT1's 0.1-us column or "
+              "the float TDB term enter); 'same instant within 1 us' for UT1 is false of the code near midnight (known finding, kernel-checked witness) and is proved as "
+              "1.5 us + record disagreement; float `_mjd` equality can differ in the last bit (known finding); DateRange is modelled on instants")
+TECHNIQUE = "Lean 4 proof (omega / induction / kernel decide on regenerated tables / real analysis for the TDB bound) + exact model-implementation correspondence"
+TRUSTED = [
+    "harness/props/C03.py extract: Timescale method table and Date constants from the AST, TDB formula through harness/py2lean.py, IERS tables through an independent "
+    "fixed-column decimal parser (checked against the real readers for every day in the thorough tier, for a sample in the quick tier)",
+    "harness/extract_graphs.py: the scale graph in execution order (shared with C20)",
+    "correspondence: real Date / DateRange / Timescale.offset / EopDb.get vs the compiled Lean model through microsecond observables (_datetime, datetime, _offset, eop, d/s, -, comparisons, hash, len/iter/in)",
+]
+ASSUMPTIONS = [
+    "Model/Date.lean is hand-written exact integer arithmetic; the code computes in doubles. Tied by exact correspondence on microsecond-exact inputs in 1973-2017 "
+    "(float error of `_s` about 1e-11 s; `_mjd` resolves 0.6 us, so distinct microseconds order correctly)",
+    "CPython datetime/timedelta microsecond rounding (half to even) is modelled by roundUs",
+    "DateRange is modelled on instants: `date += step` is `inst + step` by add_clock when the offset does not change along the range (TAI, TT, GPS always; UTC without leap second); "
+    "correspondence runs the real DateRange on Date objects of the four uniform scales",
+    "the TDB-TT term enters the integer model as a parameter (any function); its bound is proved over R, its float evaluation compared to 1e-12 s",
+]
+NOT_COVERED = [
+    "'same instant within 1 us when UT1 is involved' is false of the current code when the label day differs from the UTC day (known finding C03-eop-record-by-label-day; Witness/C03.lean)",
+    "'compares equal exactly between uniform scales' fails on about 1 conversion in 1e5 because `_mjd` is a double (known finding C03-eq-float-last-bit); the integer model compares exact instants",
+    "UT1/TDB round trip 'within 2 us' and 'UT1: within one day's change of UT1-UTC': oracle only",
+    "x, y, lod, dx, dy, dpsi, deps columns of the EOP record (used by frames, not by time scales)",
+    "leap-second windows (documented limitation of the library); Date.now, strptime, pickling",
+]
+OPEN = [
+    "changeScale_instant_bound_partial: the property's 1 us for UT1/TDB is proved as 1.5 us (three separate timedelta roundings) under the hypothesis that both dates use agreeing EOP records",
+    "iteration terminates within len+1 iterations (fuel bound) is not stated; theorems are for every fuel with which the loop returns",
+]
+RULE = ("correspondence: per scale / ordered pair random clock readings 1973-2017 (one third within 75 s of midnight, 12 % around leap seconds), constructors incl. seconds outside [0,86400) "
+        "and dates outside the tables under the three policies, change_scale on all 36 pairs, +/- timedelta, compare/hash/difference of close instants, Timescale.offset with random EOP values, "
+        "TDB formula, EopDb.get per day (every day in thorough), DateRange with both step signs / inclusive / incoherent / null; distinct = distinct request line. "
+        "oracle: the property's predicates on the real API with the IERS tables of tests/data/pole; tolerances 0 (uniform), 1 us (instant, UT1/TDB), 2 us (clock readings, UT1/TDB offsets)")
 SCALES = ["UT1", "GPS", "TDB", "UTC", "TAI", "TT"]
 UNIFORM = ("UTC", "TAI", "TT", "GPS")
 T0 = _dt.datetime(1858, 11, 17)
